@@ -198,6 +198,8 @@ Trunc(v) == CASE v = "1.5" -> "1" [] v = "-1.5" -> "-1" [] OTHER -> v
 \* ok = convertible; def = the property/documentation defines the outcome; text = how the value prints
 Conv(ty, v) ==
     CASE ty = "str"  -> [ok |-> TRUE, def |-> TRUE, text |-> v]
+      \* the empty default `[]` of a typed parameter: bound to something (not unset), what it converts to is not in the property
+      [] v = ""      -> [ok |-> TRUE, def |-> FALSE, text |-> "?"]
       [] ty = "int"  -> IF v \in IntToks THEN [ok |-> TRUE, def |-> TRUE, text |-> v]
                         ELSE IF v \in FracToks THEN [ok |-> TRUE, def |-> TRUE, text |-> Trunc(v)]    \* documented: `age 1.2` -> 1
                         ELSE [ok |-> FALSE, def |-> TRUE, text |-> ""]
